@@ -433,6 +433,15 @@ where
 
         if let Some(idle) = self.idle.get_mut(&token) {
             idle_entry = idle.pop(self.config.idle_timeout);
+            // A connection which can be shared stays available to other checkouts
+            // while this checkout holds its own handle.
+            if let Some(reused) = idle_entry
+                .as_mut()
+                .filter(|conn| conn.can_share())
+                .and_then(|conn| conn.reuse())
+            {
+                idle.push(reused);
+            }
             empty = idle.is_empty();
         }
 
